@@ -705,6 +705,9 @@ class Interp(object):
             return list(it), False
         if hasattr(it, 'sym_iter'):
             return it.sym_iter(self)
+        if it is None:
+            # CPython: iterating None raises TypeError
+            raise PyRaise(make_exc('TypeError', "'NoneType' object is not iterable"))
         raise Unsupported('iteration over %r' % (it,))
 
     def _assigned_names(self, body):
